@@ -13,6 +13,7 @@ import TeosVerif.Lemmas.Tower
 import TeosVerif.Gen.Calls
 import TeosVerif.Lemmas.TowerBreach
 import TeosVerif.Lemmas.TowerInv
+import TeosVerif.Lemmas.TowerJust
 
 namespace Teos.C01
 open Teos
@@ -207,5 +208,46 @@ theorem breach_call_sites_are_the_modelled_ones :
     Gen.Calls.carrierInMempool = [("carrier", "in_mempool", ""), ("responder", "handle_breach", "")] ∧
     Gen.Calls.getRaw = [("carrier", "in_mempool", "")] := by
   decide
+
+
+/-! ### every reachable state: what a tracker carries -/
+
+/-- **every_tracker_carries_its_appointments_breach**: after ANY history (requests, blocks, reorgs, any node
+behaviour, aborts included, no validity hypothesis) from an empty database, every tracker the tower holds is the
+response to a breach of exactly the appointment stored under the same key: the appointment row is there, the
+tracker's dispute is a transaction of a connected block carrying that appointment's locator, and the tracker's
+penalty is exactly what the appointment's blob decrypts to under that dispute — "responded to with exactly that
+data", for every reachable state. -/
+theorem every_tracker_carries_its_appointments_breach (cfg : Cfg) (height : Nat) (blocks : List (Nat × List TxId))
+    (hist : List (Node × Op)) (k : Uuid) (t : Tracker) :
+    let start : Tower × Ghost := (boot Db.empty height blocks, { seen := blocks.flatMap (·.2), accepted := [], sent := [] })
+    (runG cfg start hist).1.db.trackers k = some t →
+    ∃ a, (runG cfg start hist).1.db.appts k = some a ∧ a.blob.decrypt t.dispute = some t.penalty ∧
+      t.dispute ∈ (runG cfg start hist).2.seen ∧ locOf t.dispute = k.1 := by
+  intro start h
+  have hinv : GInv start := by
+    refine ⟨just_boot _ _ _ _ (fun k t h => by cases h) ?_, ?_, fun tx h => by cases h⟩
+    · intro b hb x hx
+      exact List.mem_flatMap.2 ⟨b, hb, hx⟩
+    · intro k b h
+      obtain ⟨a, ha, _⟩ := h
+      cases ha
+  exact (ginv_runG cfg hist start hinv).just.trk k t h
+
+/-- …and every entry of the locator cache is a transaction of a connected block, filed under its own locator -/
+theorem cache_holds_only_connected_transactions (cfg : Cfg) (height : Nat) (blocks : List (Nat × List TxId))
+    (hist : List (Node × Op)) (l : Loc) (d : TxId) :
+    let start : Tower × Ghost := (boot Db.empty height blocks, { seen := blocks.flatMap (·.2), accepted := [], sent := [] })
+    (runG cfg start hist).1.mem.cache.index l = some d →
+    d ∈ (runG cfg start hist).2.seen ∧ locOf d = l := by
+  intro start h
+  have hinv : GInv start := by
+    refine ⟨just_boot _ _ _ _ (fun k t h => by cases h) ?_, ?_, fun tx h => by cases h⟩
+    · intro b hb x hx
+      exact List.mem_flatMap.2 ⟨b, hb, hx⟩
+    · intro k b h
+      obtain ⟨a, ha, _⟩ := h
+      cases ha
+  exact (ginv_runG cfg hist start hinv).just.cache l d h
 
 end Teos.C01
